@@ -281,6 +281,25 @@ func runC20(c *core.Ctx) {
 			c20One(res, in, v, i*3+j)
 		}
 	}
+	// wide structs: 65..130 fields, exported and unexported mixed (every exported field is a member of the document)
+	for _, nf := range []int{63, 64, 65, 70, 128, 129, 130} {
+		fs := make([]reflect.StructField, nf)
+		for k := range fs {
+			fs[k] = reflect.StructField{Name: fmt.Sprintf("W%d", k), Type: gen.TInt}
+			if k%7 == 3 {
+				fs[k] = reflect.StructField{Name: fmt.Sprintf("w%d", k), Type: gen.TString, PkgPath: "vmon/internal/props"}
+			}
+			if k%11 == 5 {
+				fs[k].Type = reflect.TypeOf([]string(nil))
+			}
+		}
+		wt := reflect.StructOf(fs)
+		for j := 0; j < 3; j++ {
+			v := gen.Fill(rng, wt, vo)
+			res.Count("wide_struct_cases")
+			c20One(res, v.Interface(), v, 900000+nf*3+j)
+		}
+	}
 	// directed shapes
 	type E struct{}
 	type OnlyU struct{ a, b int }
